@@ -413,6 +413,12 @@ def oracle_subscriptions(src, ops, tail):
             if si in unsub_now and have == []:
                 continue        # cancelled by another handler before its turn came
             if have != want:
+                e_ = o["expr"]
+                while e_[0] == "mapref" and e_[2][0] == "mapref":
+                    e_ = e_[2]
+                if want == [] and have == [("Changed", v)] and e_[0] == "mapref" and e_[2][0] == "mapold":
+                    return (f"op {op.idx}: subscription {si} on observer {s['obs']}, whose node is a map_ref over a map_with_old "
+                            f"node, received Changed {v} although the value is unchanged")
                 return (f"op {op.idx}: subscription {si} on observer {s['obs']} received {have}, expected {want} "
                         f"(earlier deliveries: {before})")
         rnd += 1
@@ -710,17 +716,40 @@ def _oracle_vars_sim(src, ops):
 
 
 # ---------------------------------------------------------------- C06: cutoffs gate propagation
+def _mapref_over_map_with_old(nodes, r):
+    """node r is a map_ref whose input, through further map_refs, is a map_with_old node"""
+    seen = 0
+    while seen < 64:
+        n = nodes.get(r)
+        if n is None or n["kind"] != "MapRef" or not n.get("children"):
+            return False
+        r = n["children"][0]
+        c = nodes.get(r)
+        if c is not None and c["kind"] == "MapWithOld":
+            return True
+        seen += 1
+    return False
+
+
 def oracle_cutoffs(src, ops, tail):
     prev = None
     rank_of_handle = {}
     nh = 0
     always, never = {}, set()        # node rank -> changed_at frozen at; never set
+    plain, nondefault = {}, set()    # top-level nodes made by an ordinary combinator; those ever given a cutoff
+    computed = {}                    # node rank -> value it had at the end of the stabilise that last recomputed it
     for op in ops:
         line = src[op.idx]
         word = line.split()[0]
         if op.result.startswith("node "):
             rank_of_handle[nh] = int(op.result.split()[1])
+            if word in ("var", "pair", "const", "map", "mapref", "fold", "zip", "bind"):
+                plain.setdefault(rank_of_handle[nh], word)
+            else:
+                nondefault.add(rank_of_handle[nh])
             nh += 1
+        if word == "cutoff":
+            nondefault.add(rank_of_handle.get(int(line.split()[1])))
         if op.result.startswith("panic"):
             return None
         if word == "cutoff" and op.nodes:
@@ -766,6 +795,25 @@ def oracle_cutoffs(src, ops, tail):
                     if dn["rec"] != t:
                         return (f"op {op.idx}: node {c} changed in this stabilise (round {t}) but its needed dependant {d} "
                                 f"was not recomputed (recomputed_at {dn['rec']})")
+            # the default cutoff: a result equal to the previous value is not a change
+            for r, made in plain.items():
+                if r in nondefault:
+                    continue
+                before, after = prev.nodes.get(r), op.nodes.get(r)
+                if before is None or after is None or not before["valid"] or not after["valid"]:
+                    continue
+                if before["val"] == "-" or before["rec"] == -1 or after["val"] != computed.get(r) or after["rec"] != t or after["chg"] != t:
+                    continue
+                if after["kind"] in ("MapWithOld", "BindLhs", "Expert"):
+                    continue
+                if after["kind"] == "MapRef" and _mapref_over_map_with_old(op.nodes, r):
+                    return (f"op {op.idx}: node {r} is a map_ref whose input is a map_with_old node: it was stamped as changed "
+                            f"(round {t}) although its value {after['val']} is equal to the previous one")
+                return (f"op {op.idx}: node {r} ({made}, default cutoff) was recomputed to an equal value {after['val']} "
+                        f"but stamped as changed (round {t})")
+            for r, n in op.nodes.items():
+                if n is not None and n["valid"] and n["rec"] == t:
+                    computed[r] = n["val"]      # a map_ref's value reads through to its input: remember what it was when it last ran
             # function cutoffs see (old, new)
             evs = op.events
             for i, e in enumerate(evs):
